@@ -63,6 +63,14 @@ pub fn fuzz_eval(target: &str, data: &[u8]) -> Option<crate::engine::CaseResult>
             let case = c11::case_from_bytes(data).ok()?;
             Some(crate::engine::fuzz::eval_case(|rec| c11::check_case(&case, rec)))
         }
+        "c06_cmap" => {
+            let case = c06::case_from_bytes(data).ok()?;
+            Some(crate::engine::fuzz::eval_case(|rec| c06::check_case(&case, rec)))
+        }
+        "c10_container" => {
+            let case = c10::case_from_bytes(data).ok()?;
+            Some(crate::engine::fuzz::eval_case(|rec| c10::check_case(&case, rec)))
+        }
         "c16_glyf" => {
             let case = c16::case_from_bytes(data).ok()?;
             Some(crate::engine::fuzz::eval_case(|rec| c16::check_case(&case, rec)))
@@ -81,6 +89,8 @@ pub fn fuzz_target_property(target: &str) -> Option<&'static str> {
         "c18_type2" => Some("C18"),
         "c11_woff2" => Some("C11"),
         "c16_glyf" => Some("C16"),
+        "c06_cmap" => Some("C06"),
+        "c10_container" => Some("C10"),
         _ => None,
     }
 }
